@@ -204,7 +204,9 @@ class UnitsSerializer(Serializer):
             matched_regex = self.regex_for_serialized.fullmatch(data)
             if matched_regex:
                 data = matched_regex.group(1)
-            if data.startswith('nan'):
+            # 'nan' must be the whole magnitude token: unit names such
+            # as 'nanometer' start with the same letters
+            if data == 'nan' or data.startswith('nan '):
                 # str() of a quantity omits the leading 1 of reciprocal
                 # units ('nan / second'), so parse the units as '1 ...'.
                 unit_str = '1' + data[len('nan'):]
